@@ -65,6 +65,7 @@ def shrink(run):
 
 
 sample_of = l0common.sample_of
+preload = l0common.preload
 
 LEVEL_TEXT = ('Seeded search over (history, indicator vector, theta); the '
               'implementation result is compared with the exact-rational '
